@@ -146,6 +146,10 @@ impl<T: RecognizerReadable> Decoder for ReconDecoder<T> {
     fn decode(&mut self, src: &mut bytes::BytesMut) -> Result<Option<Self::Item>, Self::Error> {
         self.decoder.decode(src)
     }
+
+    fn decode_eof(&mut self, buf: &mut bytes::BytesMut) -> Result<Option<Self::Item>, Self::Error> {
+        self.decoder.decode_eof(buf)
+    }
 }
 
 impl<T: RecognizerReadable> ReconDecoder<T> {
